@@ -109,7 +109,10 @@ impl F {
             F::Unblocked => enc_method(0, AMQPClass::Connection(Cn::Unblocked(connection::Unblocked {}))),
             F::ClientOnly { ch, which } => enc_method(
                 *ch,
-                match which % 6 {
+                match which % 8 {
+                    // (names of legal length that make any text quoting the method long)
+                    6 => AMQPClass::Basic(B::Publish(basic::Publish { ticket: 0, exchange: "e".repeat(200), routing_key: "k".repeat(255), mandatory: true, immediate: false })),
+                    7 => AMQPClass::Queue(Q::Declare(queue::Declare { ticket: 0, queue: "q".repeat(255), passive: false, durable: true, exclusive: false, auto_delete: false, nowait: false, arguments: Default::default() })),
                     0 => AMQPClass::Basic(B::Publish(basic::Publish { ticket: 0, exchange: "".into(), routing_key: "k".into(), mandatory: false, immediate: false })),
                     1 => AMQPClass::Queue(Q::Declare(queue::Declare { ticket: 0, queue: "q".into(), passive: false, durable: false, exclusive: false, auto_delete: false, nowait: false, arguments: Default::default() })),
                     2 => AMQPClass::Basic(B::Qos(basic::Qos { prefetch_size: 0, prefetch_count: 1, global: false })),
@@ -645,6 +648,9 @@ pub fn run_seq(frames: &[F], cut: u8, res: &mut CaseResult) {
             if last_code != Some(*code) {
                 res.violate("wrong_last_frame", format!("sequence {:?}: last frame written is {} (code {:?}), want Connection.Close with code {}", short(frames), last, last_code, code));
             }
+            if let Some(e) = wire::first_surplus(&h.frames()) {
+                res.violate("malformed_outbound_frame", format!("sequence {:?}: {}", short(frames), e));
+            }
         }
         (End::ServerClosed(code), false) => {
             if closek != format!("ServerClosedConnection({},\"server says bye\")", code) {
@@ -739,6 +745,9 @@ fn exception_with_backlog(r: &mut Rng, res: &mut CaseResult) {
     let frames = h.frames();
     let sp_err = h.peek(|st| st.parse_error.clone());
     if let Some(e) = sp_err {
+        res.violate("malformed_outbound_frame", e);
+    }
+    if let Some(e) = wire::first_surplus(&frames) {
         res.violate("malformed_outbound_frame", e);
     }
     let pos = frames.iter().position(|f| matches!(f.method(), Some(AMQPClass::Connection(Cn::Close(c))) if c.reply_code == code));
